@@ -401,6 +401,17 @@ def run_history(case, prefix):
                         bad("write-callback-second", f"{tag}: second write callback saw "
                                                      f"{rig.wlog2[-1:] if rig.wlog2 else None}")
                     stores_agree(tag)
+            elif (style == "exp_nosize" and res[0] == "ok" and exp[1] == CODES["length"]
+                  and len(data) * 8 > rc.NUMERIC[m.lookup(index, sub)[0]["dt"]]):
+                # an expedited download that does NOT indicate its size (e=1, s=0) carries "4 bytes of which
+                # an unspecified number are data": no payload length is stated, so this is not "a payload
+                # of the wrong length". Refusing it (what canopen does) and taking the entry's leading
+                # bytes are both conformant; in the latter case exactly those bytes must be stored
+                key = m.key(index, sub)
+                m.store[key] = data[:rc.NUMERIC[m.lookup(index, sub)[0]["dt"]] // 8]
+                m.taint.discard(key)
+                feats.add("nosize-narrow-accepted")
+                stores_agree(tag)
             else:
                 if res[0] != "abort":
                     bad("download/not-refused", f"{tag}: expected abort "
